@@ -355,6 +355,12 @@ class Property:
         """canonicalise an impl or model result for comparison"""
         return out
 
+    def spec_ok(self, case, out, spec):
+        """does result `out` (impl or model) satisfy the specification oracle's answer `spec`?"""
+        if spec is None:
+            return True
+        return spec_match(self.canon(case, out), self.canon(case, spec))
+
     def nontrivial_key(self, case, impl_out):
         """return a hashable key if the case is non-trivial, else None"""
         return case
@@ -404,8 +410,7 @@ def judge(prop, row):
     """returns (impl_vs_model_ok, impl_vs_spec_ok, model_vs_spec_ok)"""
     c, i, m, s = row
     ci, cm = prop.canon(c, i), prop.canon(c, m)
-    cs = prop.canon(c, s) if s is not None else None
-    return (ci == cm, spec_match(ci, cs), spec_match(cm, cs))
+    return (ci == cm, prop.spec_ok(c, i, s), prop.spec_ok(c, m, s))
 
 
 def shrink(prop, bins, model_exe, case, pred):
